@@ -157,6 +157,52 @@ def run(ctx) -> None:
         rep.check("C12.R6", inside_all and bool(phase_calls), starter, w, "prepare(), the children and start() all run inside `async with <component context>`", "a phase of the component runs outside its component context")
     cinit = an.ComponentContext.methods["__init__"]
     captured = [n for n in walk_own(cinit.node) if isinstance(n, ast.Assign) and isinstance(n.value, ast.Call) and call_name(n.value) == "current_context"]
+    if not captured:
+        # ... or it is looked up once by whoever builds the tree and handed down: follow the
+        # constructor parameter through the call sites back to a current_context() call
+        from .common import def_use_closure
+
+        def actual_for(call: ast.Call, callee, pname: str, is_ctor: bool):
+            params = [x.arg for x in callee.node.args.args] + [x.arg for x in callee.node.args.kwonlyargs]
+            pos = params[1:] if (is_ctor or (callee.cls is not None and "staticmethod" not in callee.decorators)) else params
+            for k in call.keywords:
+                if k.arg == pname:
+                    return k.value
+            if pname in pos and pos.index(pname) < len(call.args) and pname in [x.arg for x in callee.node.args.args]:
+                arg = call.args[pos.index(pname)]
+                return None if isinstance(arg, ast.Starred) else arg
+            return None
+
+        def traces(func, expr, depth: int = 0, is_ctor: bool = False) -> bool:
+            if depth > 4 or expr is None:
+                return False
+            clo = def_use_closure(func, expr)
+            if "current_context" in clo:
+                return True
+            pnames = [x for x in func.params if x in clo]
+            if not pnames:
+                return False
+            for pname in pnames:
+                sites = []
+                for g in ctx.p.all_functions():
+                    for call, c in a.func_calls(g):
+                        hit = (c.kind == "func" and c.func is func) or (func.name == "__init__" and c.kind == "class" and c.cls is func.cls)
+                        if hit:
+                            sites.append((g, call, c.kind == "class"))
+                ok_sites = 0
+                for g, call, ctor in sites:
+                    arg = actual_for(call, func, pname, ctor)
+                    if g is func and isinstance(arg, ast.Name) and arg.id == pname:
+                        continue  # passed through unchanged by the recursion
+                    if arg is None or not traces(g, arg, depth + 1):
+                        return False
+                    ok_sites += 1
+                if not ok_sites:
+                    return False
+            return True
+
+        handed = [n for n in walk_own(cinit.node) if isinstance(n, (ast.Assign, ast.AnnAssign)) and n.value is not None and any(self_attr(t) == an.wrapped_attr for t in (n.targets if isinstance(n, ast.Assign) else [n.target]))]
+        captured = [n for n in handed if traces(cinit, n.value)]
     rep.check("C12.R6", bool(captured), cinit, captured[0] if captured else cinit.node, "the context wrapped by a component context is the one current when the tree was built (start_component's caller)", "the wrapped context is not captured from current_context() at construction")
     sup = [c for c in walk_own(cinit.node) if isinstance(c, ast.Call) and isinstance(c.func, ast.Attribute) and c.func.attr == "__init__" and "super" in ast.unparse(c.func.value)]
     rep.check("C12.R6", bool(sup) and not sup[0].args and not sup[0].keywords, cinit, sup[0] if sup else cinit.node, "the component context's own parent is chosen like any context's (current at creation)", "the component context passes an explicit parent")
